@@ -1,8 +1,12 @@
 """Per-property harness lists, bounds and claims (consumed by tools/check.py)."""
 
-def H(name, quick=None, thorough=None, shards=None, budget=(600, 2400), tiers=("quick", "thorough")):
+def H(name, quick=None, thorough=None, shards=None, budget=(600, 2400), tiers=("quick", "thorough"), partial=()):
+    """partial: tiers in which a shard may stop on its time budget: the explored paths are decided, the rest is
+    reported as unexplored (PARTIAL line, evidence harness_results[].status = partial); exploration order then
+    depends on VERIF_SEED"""
     return {"name": name, "params": {"quick": quick or {}, "thorough": thorough or quick or {}},
-            "shards": shards or {}, "budget_s": {"quick": budget[0], "thorough": budget[1]}, "tiers": tiers}
+            "shards": shards or {}, "budget_s": {"quick": budget[0], "thorough": budget[1]}, "tiers": tiers,
+            "partial": tuple(partial)}
 
 
 def shard_choose(var, n):
@@ -48,12 +52,13 @@ PROPS["C04"] = {
     "harnesses": [
         H("h_c04_step", {"CALLS": 1}, {"CALLS": 2},
           shards={"quick": C04_SHARDS, "thorough": C04_SHARDS},
-          budget=(900, 3000)),
+          budget=(900, 480), partial=("thorough",)),
     ],
     "panic_ok": ["h_c04_step"],
     "bounds": {"quick": "7 start forests (5-8 nodes, all text-like contents symbolic), 1 call drawn from 34 operations with "
                         "every tuple of live nodes as arguments",
-               "thorough": "same forests, every sequence of 2 calls"},
+               "thorough": "same forests, sequences of 2 calls: each of the 77 shards explores 2-call sequences for 480 s in a "
+                    "VERIF_SEED-dependent order (the space is not exhausted; evidence lists the shards as partial)"},
     "outside": "histories longer than 2 calls; forests other than the catalogue; parsing as a history step",
     "assumptions": [],
 }
